@@ -38,7 +38,7 @@ def run_case(case):
     return bool(hr.doc.summary_tables()) or any(c['reverseCol'] or (c['formula'] and not c['isFormula']) for c in cm)
 
   def on_step(s):
-    if not s.reply.ok:
+    if not s.reply.ok or s.uas == [['Calculate']]:     # (the settling Calculate after a failed bundle is not undone)
       return None
     sig = bundle_sig(s.uas)
     after_pos = len(hr.doc.log)       # log[:after_pos] rebuilds the post-bundle state
